@@ -152,6 +152,8 @@ class FilterConv(Module):
 
     def get_padded_vector(self, x):
         xpad = x[self.el3d_pad]
+        if not np.issubdtype(xpad.dtype, np.inexact):
+            xpad = xpad.astype(float)  # Integer-typed fields would truncate the overridden and filtered values
         for index, value in self.overrides:
             xpad[index] = value
         return xpad
@@ -175,7 +177,7 @@ class FilterConv(Module):
     def _response(self, x):
         xpad = self.get_padded_vector(x)
         y3d = convolve(xpad, self.weights, mode='valid')
-        y = np.zeros_like(x)
+        y = np.zeros(np.shape(x), dtype=y3d.dtype)
         np.add.at(y, self.el3d_orig, y3d)
         return y
 
@@ -183,7 +185,7 @@ class FilterConv(Module):
         dx3d = correlate(dfdv[self.el3d_orig], self.weights, mode='full')
         for index, _ in self.overrides:
             dx3d[index] = 0
-        dx = np.zeros_like(self.sig_in[0].state)
+        dx = np.zeros(np.shape(self.sig_in[0].state), dtype=dx3d.dtype)
         np.add.at(dx, self.el3d_pad, dx3d)
         return dx
 
